@@ -155,8 +155,12 @@ class CSSCharsetRule(cssrule.CSSRule):
             )
         else:
             try:
-                codecs.lookup(encoding)
-            except LookupError:
+                # must be usable for serializing: a text encoding ("rot13" e.g.
+                # is a codec but not one) other than the css codec itself
+                if codecs.lookup(encoding).name == 'css':
+                    raise LookupError(encoding)
+                ' '.encode(encoding, 'escapecss')
+            except (LookupError, ValueError):
                 self._log.error(
                     'CSSCharsetRule: Unknown (Python) encoding %r.' % encoding
                 )
